@@ -34,6 +34,25 @@ fn listing(dir: &str) -> Vec<String> {
     v
 }
 
+/// every non-directory entry below `dir` (rendezvous sockets), however the library lays them out
+fn files_below(dir: &str) -> Vec<String> {
+    let mut out = Vec::new();
+    let mut stack = vec![std::path::PathBuf::from(dir)];
+    while let Some(d) = stack.pop() {
+        if let Ok(rd) = std::fs::read_dir(&d) {
+            for e in rd.flatten() {
+                let p = e.path();
+                match e.file_type() {
+                    Ok(t) if t.is_dir() => stack.push(p),
+                    _ => out.push(p.to_string_lossy().to_string()),
+                }
+            }
+        }
+    }
+    out.sort();
+    out
+}
+
 fn mk(i: usize, sz: Sz, attach: bool, keep: &mut Vec<IpcReceiver<u32>>) -> Msg {
     let d = payload(0, i as u32, sz.len());
     if attach {
@@ -268,9 +287,9 @@ fn e2_body(c: &Case) -> Result<(), String> {
             for (i, (s, name)) in servers.into_iter().enumerate() {
                 // every server that is gone must have taken its rendezvous entry with it, whatever
                 // else is still alive
-                let entries = interpose::harness(|| listing(&root)).len();
-                if entries > total - i {
-                    return Err(format!("[left-behind] {} of {} servers are gone but {} filesystem entries remain", i, total, entries));
+                let entries = interpose::harness(|| files_below(&root));
+                if entries.len() > total - i {
+                    return Err(format!("[left-behind] {} of {} servers are gone but {} rendezvous files remain: {:?}", i, total, entries.len(), entries.iter().take(4).collect::<Vec<_>>()));
                 }
                 if *accept_every > 0 && i % accept_every == 0 {
                     let tx = IpcSender::<Msg>::connect(name).map_err(|e| format!("connect: {}", e))?;
